@@ -21,7 +21,9 @@
 (* after "(" and before ")"; "-" is directly followed by its operand.                       *)
 EXTENDS Integers, Sequences, FiniteSets, SequencesExt, TLC
 
-CONSTANT Upper      \* the upper-case letters (code points) of the alphabets in use (Unicode table)
+CONSTANTS Upper,      \* the upper-case letters (code points) of the alphabets in use (Unicode table)
+          RegexField  \* what the field table says about regex: -- "content" ("Matches content using a regular
+                      \* expression", the text today) or "any" ("file names or content", see NOTES/C06.md)
 
 BS == 92   QT == 34   SP == 32   TAB == 9   NL == 10   LP == 40   RP == 41   DASH == 45   COLON == 58
 
@@ -223,7 +225,7 @@ FieldAtom(e, val, mode) ==
   LET f == FieldOf[e.p] IN
   CASE f = "file"    -> Pattern(val, TRUE, FALSE, mode)        \* "Searches file names"
     [] f = "content" -> Pattern(val, FALSE, TRUE, mode)        \* "Searches content of files"
-    [] f = "regex"   -> Pattern(val, FALSE, TRUE, mode)        \* "Matches content using a regular expression"
+    [] f = "regex"   -> Pattern(val, FALSE, RegexField = "content", mode)
     [] f = "sym"     -> [Node("symbol") EXCEPT !.sub = <<Pattern(val, FALSE, TRUE, mode)>>]
     [] f = "repo"    -> [Node("repo") EXCEPT !.re = val.re, !.pat = val.v]
     [] f = "branch"  -> [Node("branch") EXCEPT !.pat = val.v]   \* "branch names containing the value; HEAD ..."
